@@ -20,12 +20,17 @@
 (*     CSeek(t)   chainSampleIterator.Seek                                 *)
 (*  preceded by a canonical Build phase that lets TLC choose the inputs.   *)
 (*                                                                         *)
-(* `low` says whether model time 0 is concretised as math.MinInt64, the    *)
-(* value `lastT` is initialised with (getChainSampleIterator).  The code   *)
-(* then skips a first sample at that timestamp (DESIGN §7-H11, confirmed   *)
-(* on the real code: known finding KF-C19-1); the invariant is therefore   *)
-(* stated as  ChainMatchesRef \/ KF_C19_1 \/ KF_C19_2 (KF_C19_2: the same    *)
-(* sentinel combined with a re-used iterator object, see `stale`).         *)
+(* `low` says whether model time 0 is concretised as math.MinInt64, and    *)
+(* `stale` whether the iterator object is re-used from an earlier use that *)
+(* left c.curr on input `stale`: both only select concretisations.  Until  *)
+(* commits 66c6d27753 / e70e80fdf9 the code used math.MinInt64 as a        *)
+(* "nothing returned yet" sentinel for lastT and did not reset c.curr on   *)
+(* re-use (former known findings KF-C19-1 / KF-C19-2: a first sample at    *)
+(* MinInt64 skipped; first Seek(MinInt64) on a re-used object answered     *)
+(* from the stale iterator).  The transcription now follows the repaired   *)
+(* code: lastT = -1 stands for hasLastT = FALSE (it equals no model time), *)
+(* c.curr starts as nil in every case, and the invariant is the plain      *)
+(* ChainMatchesRef.                                                        *)
 (*                                                                         *)
 (* The behaviours handed to the Go harness carry the REFERENCE prediction  *)
 (* for every call (value type none/some, timestamp, allowed (input,type)   *)
@@ -47,7 +52,7 @@ CONSTANTS K,        \* number of input series, >= 1
 
 VARIABLES ins,      \* [1..K -> Seq([t, ty])], strictly increasing t
           low,      \* model time 0 = math.MinInt64 ?
-          stale,    \* initial value of c.curr (getChainSampleIterator re-uses the object without resetting curr)
+          stale,    \* 0 = fresh object; j = object re-used after a use that left c.curr on input j (reset by getChainSampleIterator)
           slot,     \* Build cursor; K*(MaxT+1) when the inputs are complete
           idx,      \* [1..K -> Nat] cursor of the underlying iterators (0 = not started, Len+1 = exhausted)
           inited,   \* c.h # nil
@@ -135,7 +140,7 @@ Pop(st, lt) ==
              ELSE Loop(st2, lt)
         : i \in MinSet(st.idx, st.heap) }
 
-MinInit == IF low THEN 0 ELSE -1          \* csi.lastT = math.MinInt64
+MinInit == -1                             \* csi.hasLastT = false: lastT compares equal to no timestamp
 
 -----------------------------------------------------------------------------
 Init == /\ ins = [i \in Ids |-> <<>>]
@@ -145,7 +150,7 @@ Init == /\ ins = [i \in Ids |-> <<>>]
         /\ inited = FALSE
         /\ heap = {}
         /\ stale \in Stales
-        /\ curr = stale
+        /\ curr = 0                                \* csi.curr = nil, also on a re-used object
         /\ lastT = MinInit
         /\ pos = 0
         /\ ret = [vt |-> "init", t |-> -1, src |-> 0]
@@ -237,14 +242,7 @@ ChainMatchesRef ==
           /\ Valid(ret.src, idx[ret.src]) /\ TAt(ret.src, idx[ret.src]) = ret.t     \* At() reads that sample
      ELSE ret.vt = "none"
 
-\* KF-C19-1: lastT starts at math.MinInt64, so a first sample with that timestamp is skipped by Next.
-KF_C19_1 == low /\ \E i \in Ids : HasT(i, 0)
-
-\* KF-C19-2: a re-used iterator object keeps its old c.curr; Seek(math.MinInt64) as the first call then
-\* takes the no-op branch (lastT = MinInt64 >= t) and answers from that one iterator.
-KF_C19_2 == low /\ stale # 0
-
-Conforms == ChainMatchesRef \/ KF_C19_1 \/ KF_C19_2
+Conforms == ChainMatchesRef
 
 \* nothing still waiting in the heap is older than what was returned last
 HeapAhead == \A i \in heap : curr # 0 => TAt(i, idx[i]) >= lastT
